@@ -62,14 +62,14 @@ CLAIMS = {
         note='The run-time clause (replace symbols by quantities, construct the quantity) follows from S1 here and S1 of C05 for the tree family, not for all SymPy expression kinds.',
         technique="abstract evaluation of the collector's source on a family of expression trees, answers compared with a specification function in an exact normal form", ref='DESIGN.md §2 C05/C06'),
     "C07": dict(
-        text="convert_to is decided to be the ratio value.scale_factor/target.scale_factor (exact monomial normal form) guarded by the dimension "
-             "assertion on every path - composition, inversion and SI agreement then follow algebraically given C05; the SI base table is "
+        text="convert_to (evaluated from its source on quantity and non-quantity operands, twice in a row) is decided to be the ratio value.scale_factor/target.scale_factor guarded by the dimension "
+             "assertion on exactly its two operands - composition, inversion and SI agreement then follow algebraically given C05; the SI base table is "
              "checked against SymPy's unit tables read from source (total, right dimension, SI value 1) and the product formula over "
              "dimensional dependencies; the Celsius helpers are affine with one shared constant 273.15, keep the temperature dimension at 0 K "
              "and are stateless (no memoisation, no stores into arguments). The Celsius helpers, evaluate_expression and dimension_to_si_unit are "
              "evaluated from their source on symbolic inputs (whatever the shape of the code).",
         note="Exactness of Fraction/float division and SymPy's subs inside evaluate_expression are not decided; scale factors are assumed to be SI scale factors (C05).",
-        technique="monomial normal form of the return expression, CFG dominance, table check against SymPy unit sources, abstract evaluation of the helpers", ref="DESIGN.md §2 C07"),
+        technique="abstract evaluation of convert_to / convert_to_si / convert_to_float and the helpers, table check against SymPy unit sources", ref="DESIGN.md §2 C07"),
     "C09": dict(
         text="Fresh-name provenance for every constructor that creates a SymPy object (the name is next_name(<literal>) on every path, never "
              "data-dependent on display names), injectivity of (prefix, counter) -> name, single monotone writer of the counters, clone "
